@@ -230,7 +230,58 @@ def normalise(nodes, loop=None):
                 out.append({"t": "JOIN", "sep": sep, "items": items})
                 continue
         out.append(n)
-    return out
+    # a join over a nested iteration: `for name in table { for value in all(name) { sep-unless-first; name; value } }` with the "first" state
+    # kept across the outer loop is one join over the flattened sequence of (name, value) occurrences
+    out2 = []
+    for n in out:
+        if n["t"] == "LOOP" and len(n["items"]) == 1 and n["items"][0]["t"] == "JOIN" and _first_state_outlives(n, n["items"][0]["sep"]):
+            out2.append(n["items"][0])
+        else:
+            out2.append(n)
+    return out2
+
+
+def _first_state_outlives(loop, sep):
+    """the separator of the inner join is chosen by a boolean that is initialised outside `loop` and never set back to its initial value inside it"""
+    ev = _first_event(sep)
+    lid = loop.get("id")
+    if ev is None or lid is None or lid[0] != ev["body"].name or not isinstance(lid[1], int):
+        return False
+    b = ev["body"]
+    head = lid[1]
+    blocks = {head}
+    preds = b.preds()
+    for (src, lab) in flow.back_edges(b):
+        if flow.edge_target(b, (src, lab)) != head:
+            continue
+        st = [src]
+        blocks.add(src)
+        while st:
+            x = st.pop()
+            if x == head:
+                continue
+            for p_, _ in preds.get(x, []):
+                if p_ not in blocks:
+                    blocks.add(p_)
+                    st.append(p_)
+    flags = {}
+    for bi, si, stt in b.stmts():
+        rv = stt["rv"]
+        if not stt["dst"]["proj"] and rv["k"] == "use" and isinstance(rv["ops"][0], dict) and rv["ops"][0].get("c") == "int" and rv["ops"][0].get("ty") == "bool":
+            flags.setdefault(stt["dst"]["l"], []).append((bi in blocks, rv["ops"][0]["v"]))
+    for l, asg in flags.items():
+        init = {v for inside, v in asg if not inside}
+        inner = {v for inside, v in asg if inside}
+        if len(init) == 1 and inner and not (inner & init):
+            # the flag is read by a switch inside the loop
+            for x in blocks:
+                t = b.blocks[x]["term"]
+                if t["k"] == "switch":
+                    p = flow.op_place(t["discr"])
+                    ch = flow.resolve_chain(b, t["discr"]) if p is not None else None
+                    if ch and any(c[0] == l for c in ch):
+                        return True
+    return False
 
 
 def canon(events):
